@@ -397,6 +397,57 @@ impl VersionManager {
     }
 }
 
+/// Verification hook: a copy of the bookkeeping of the version manager.
+#[cfg(feature = "verif")]
+#[derive(Debug, Clone)]
+pub struct VerifVersionState {
+    pub epoch: u64,
+    /// snapshot (table id, row-set id) of every epoch still recorded
+    pub status: Vec<(u64, Vec<(u32, u32)>)>,
+    pub ref_cnt: Vec<(u64, usize)>,
+    pub pending_deletions: Vec<(u64, Vec<(u32, u32)>)>,
+    /// row-set objects held in memory
+    pub pool: Vec<(u32, u32)>,
+}
+
+#[cfg(feature = "verif")]
+impl VersionManager {
+    pub fn verif_state(&self) -> VerifVersionState {
+        let inner = self.inner.lock();
+        let mut status: Vec<(u64, Vec<(u32, u32)>)> = inner
+            .status
+            .iter()
+            .map(|(e, s)| {
+                let mut v: Vec<(u32, u32)> = s
+                    .rowsets
+                    .iter()
+                    .flat_map(|(t, rs)| rs.iter().map(move |r| (*t, *r)))
+                    .collect();
+                v.sort_unstable();
+                (*e, v)
+            })
+            .collect();
+        status.sort();
+        let mut ref_cnt: Vec<(u64, usize)> = inner.ref_cnt.iter().map(|(e, c)| (*e, *c)).collect();
+        ref_cnt.sort();
+        let mut pending_deletions: Vec<(u64, Vec<(u32, u32)>)> = inner
+            .rowset_deletion_to_apply
+            .iter()
+            .map(|(e, d)| (*e, d.clone()))
+            .collect();
+        pending_deletions.sort();
+        let mut pool: Vec<(u32, u32)> = inner.rowsets.keys().copied().collect();
+        pool.sort_unstable();
+        VerifVersionState {
+            epoch: inner.epoch,
+            status,
+            ref_cnt,
+            pending_deletions,
+            pool,
+        }
+    }
+}
+
 pub struct Version {
     pub epoch: u64,
     pub snapshot: Arc<Snapshot>,
